@@ -136,7 +136,7 @@ class Module:
         # Now sort out naming. We get two name-sources:
         # (a) the function-argument `name` and (b) the value's `name` attribute.
         # One or the other (and not both) must be set.
-        if name is None and val.name is None:  # Neither set, fail.
+        if not name and not val.name:  # Neither set (or empty), fail.
             msg = f"Anonymous attribute {val} cannot be added to Module {self.name}"
             raise RuntimeError(msg)
         if name is not None and val.name is not None:  # Both set, fail.
